@@ -493,7 +493,11 @@ PARTS = {
     "C03": dict(coq_props=["Properties_C03_pfor"], files=FILES, rule=RULE, generate=generate_C03,
                 oracles={"pfor_enc": o_enc_C03}, classify=classify, search=search,
                 assumptions=ASSUME, configs_quick=["pinned", "O0"]),
-    "C16": dict(coq_props=["Properties_C16_pfor"], files=FILES, rule=RULE, generate=generate_C16,
-                oracles={"pfor_enc": o_enc_C16}, classify=classify, search=search,
-                assumptions=ASSUME, configs_quick=["pinned", "O0"]),
+    "C16": dict(coq_props=["Properties_C16_pfor", "Properties_C16_pfor_src"], files=FILES, rule=RULE,
+                generate=generate_C16, oracles={"pfor_enc": o_enc_C16}, classify=classify, search=search,
+                assumptions=ASSUME, configs_quick=["pinned", "O0"],
+                trusted_base=["gen/c2coq.py + CSem.v for the *_src theorems (C-to-Gallina translator, clang 14 typed AST "
+                              "-> coq/gen/Src_leaf_pfor.v via gen/c2coq_leaf.py: varintPFORCalculateMarker regenerated from "
+                              "the current source on every run; subset and assumptions in the translator's docstring); "
+                              "the rendering is tied to the compiled C by the translator, not by proof"]),
 }
